@@ -561,6 +561,69 @@ def r4(ctx):
     f = methods.get('findFeaturesBetween')
     if f is None:
         raise AnalysisError('findFeaturesBetween not found')
+    try:
+        _r4_between_structural(ctx, methods, f)
+    except AnalysisError:
+        sem = _between_by_interpretation(ctx, f)
+        if sem is None:
+            raise
+        okb, ncase, wit = sem
+        ctx.counters['abstract_cases'] += ncase
+        ctx.emit('C16-R4', okb, FEATURES, f, f'findFeaturesBetween interpreted on {ncase} (sorted feature list, range, strand) cases with coordinates 0..5 (zero-length features and ranges included): ' +
+                 ('reports exactly the features whose closed interval overlaps the closed range and whose strand matches' if okb else f'differs: {wit}'), key='between:overlap-predicate', witness=wit,
+                 what='findFeaturesBetween: reported features differ from the closed-interval overlap')
+    _r4_point(ctx, methods)
+
+
+def _between_by_interpretation(ctx, f):
+    import itertools
+    from ..consteval import run_function, Unfoldable, Raised
+    par = [x.arg for x in f.args.args]
+    coords = range(0, 6)
+    spans = [(a, b) for a in coords for b in coords if a <= b and b - a <= 3]
+    n = 0
+    try:
+        for k in (0, 1, 2, 3):
+            for combo in itertools.combinations(spans, k):
+                feats = sorted((a, b, f'f{i}', '+' if i % 2 else '-', None) for i, (a, b) in enumerate(combo))
+                for qs, qe in [(a, b) for a in coords for b in coords if a <= b and b - a <= 2]:
+                    if k == 3 and (qs + qe) % 2:
+                        continue
+                    for strand in (None, '+'):
+                        n += 1
+
+                        def hook(ev, call, env, feats=feats):
+                            d = dotted(call.func) or ''
+                            if d in ('self.findFeaturesAt', 'self._findFeaturesAt'):
+                                a_ = [ev.ev(x, env) for x in call.args]
+                                kw_ = {k_.arg: ev.ev(k_.value, env) for k_ in call.keywords}
+                                c_ = a_[1] if len(a_) > 1 else kw_.get('lookupCoordinate')
+                                st_ = a_[2] if len(a_) > 2 else kw_.get('strand')
+                                return [ft for ft in feats if ft[0] <= c_ <= ft[1] and (st_ is None or ft[3] == st_)]
+                            if d in ('self.debugMsg', 'print', 'self.sort'):
+                                return None
+                            return NotImplemented
+                        env = {'self.features': {'c': list(feats)}, 'self.startCoordinates': {'c': [ft[0] for ft in feats]}, 'self.endCoordinates': {'c': sorted(ft[1] for ft in feats)},
+                               'self.debug': False, 'self.sorted': True, 'self.verbose': False, 'self.maxFeatureSizes': {'c': max([ft[1] - ft[0] for ft in feats] or [0])}}
+                        if not feats:
+                            env['self.startCoordinates'] = {}
+                            env['self.endCoordinates'] = {}
+                            env['self.features'] = {}
+                        got = run_function(f, ['<self>', 'c', qs, qe, strand][:len(par)], env=env, budget=60000, call_hook=hook)
+                        got = sorted(set(tuple(x) for x in (got or [])))
+                        want = sorted(ft for ft in feats if ft[0] <= qe and ft[1] >= qs and (strand is None or ft[3] == strand))
+                        if got != want:
+                            return (False, n, {'features (start, end, strand)': [(ft[0], ft[1], ft[3]) for ft in feats], 'range': (qs, qe), 'strand': strand,
+                                               'reported': [(x[0], x[1]) for x in got], 'overlapping': [(x[0], x[1]) for x in want]})
+    except (Unfoldable, Raised):
+        return None
+    except Exception:
+        return None
+    return (True, n, None)
+
+
+def _r4_between_structural(ctx, methods, f):
+    from ..domains import check_pred, linform, Lin
     a = [x.arg for x in f.args.args]
     ss, se = a[2], a[3]
     unpack = [s for s in walk_no_nested(f) if isinstance(s, ast.Assign) and isinstance(s.targets[0], ast.Tuple) and len(s.targets[0].elts) == 5]
@@ -620,6 +683,10 @@ def r4(ctx):
     pts = sorted(src(c.args[0]) for c in ends)
     ok = len(ends) == 2 and any(ss in p_ for p_ in pts) and any(se in p_ for p_ in pts)
     ctx.emit('C16-R4', ok, FEATURES, f, 'range query also unions the point queries at both ends of the range', key='between:end-point-union', nontrivial=False)
+
+
+def _r4_point(ctx, methods):
+    from ..domains import check_pred, linform, Lin
     # point query
     g = methods.get('_findFeaturesAt')
     coord = g.args.args[2].arg
@@ -727,6 +794,9 @@ def r5(ctx):
         c_ = mxv.args[0]
         g_ = c_.generators[0]
         ok = len(c_.generators) == 1 and not g_.ifs and isinstance(g_.target, ast.Name) and src(g_.iter) in feature_lists and src(c_.elt) == f'{g_.target.id}[1] - {g_.target.id}[0]'
+        if not ok and len(c_.generators) == 1 and not g_.ifs and isinstance(g_.target, ast.Tuple) and len(g_.target.elts) >= 2 and all(isinstance(e_, ast.Name) for e_ in g_.target.elts[:2]):
+            # the feature tuple unpacked in the loop target: (start, end, ...)
+            ok = src(g_.iter) in feature_lists and src(c_.elt) == f'{g_.target.elts[1].id} - {g_.target.elts[0].id}'
     mx = mxs
     ctx.emit('C16-R5', ok, FEATURES, mx[0] if mx else f, f'longest feature: `{src(mxv)[:80] if mxv is not None else None}`', key='sort:max-feature-size', nontrivial=False)
 
